@@ -542,7 +542,14 @@ fn main() {
                     for b in bsets {
                         let mut out = vec![];
                         let (ra, ca) = check_rejection(text, &b, &mut st, &mut out);
-                        out.extend(domain_findings(text, &b));
+                        // The constructor's documented domain excludes the empty text and empty
+                        // records (boundaries must start at 0, strictly increase and stay below
+                        // the length); both document types refuse them with an explicit error.
+                        // A refusal is not an answer that differs from the plain scan, so it is
+                        // counted, not reported (DESIGN.md 9).
+                        for f in domain_findings(text, &b) {
+                            acc.report.count(&format!("note:{}", f.sig), 1);
+                        }
                         acc.report.evaluations += 1;
                         acc.report.traces_validated += 1;
                         acc.report.count("invalid_inputs", 1);
@@ -707,13 +714,13 @@ fn main() {
             } else {
                 "all sequences of 1..3 runs over {1,62..66}, all of 1..2 runs over the 9 lengths <= 4097, (a, m, b) with a,b in {1,63,64} and m in 4095..4097, (x), (a, x), (x, a) with x in 65535..65537, both starting bits; each length <= 4097 repeated past 2*4097 bits"
             },
-            "arguments": "every index 0..=len for access/rank/rank0/access_rank, every k 0..=count for select/select0, 8 arguments just past the range, and an ascending ladder of 21 arguments from 2^16 to usize::MAX (stopped at the first call slower than 2 ms, which is a finding)",
+            "arguments": "every index 0..=len for access/rank/rank0/access_rank, every k 0..=count for select/select0, 8 arguments just past the range, and an ascending ladder of 21 arguments from 2^16 to usize::MAX (stopped at the first call slower than 100 ms twice in a row, which is a finding)",
         },
     });
     report.rule = "Every case of the stated finite spaces is run on the real scrunch code; nothing is sampled. \
 Documents: a case is one (text, record-boundary set); each is built with CompressedDocument::construct and queried after unpack (the only way the crate offers: a document exists only as serialised bytes), a second unpack of a copy of the bytes at another address must answer the same, and a second construct must give identical bytes. \
-Deciding oracle = naive scan of the original Vec<u32> written in the harness: len, records, lookup(offset) for every offset < len, offset_of/retrieve for every record (byte for byte), search as a sorted set and count for every pattern; the empty pattern follows the crate's stated convention (every offset 0..len). Record indexes past the end must give Err (asked just past the end and on an ascending ladder of 21 values from 2^16 to usize::MAX; a call slower than 2 ms twice in a row is reported as 'time grows with the argument' and ends the ladder, so the harness never sends the magnitudes at which such a call would not return); offsets >= len must merely not panic. Where texts x boundary sets x patterns of one length exceeds the level budget (see bound.documents.levels) every pattern is asked on the canonical boundary sets only and the other boundary sets get the reduced pattern set (all patterns of length <= 2, every substring of the text, every substring extended by one symbol on either side). The crate's ReferenceDocument is run through the same oracle and reported under refdoc:* signatures (its search ignores boundaries by construction, so it is asked the patterns once per text). \
-The API admits only boundaries that start at 0, strictly increase and stay < len, so empty records and the empty text cannot be built: that refusal is reported as doc:construct:refuses:*. \
+Deciding oracle = naive scan of the original Vec<u32> written in the harness: len, records, lookup(offset) for every offset < len, offset_of/retrieve for every record (byte for byte), search as a sorted set and count for every pattern; the empty pattern follows the crate's stated convention (every offset 0..len). Record indexes past the end must give Err (asked just past the end and on an ascending ladder of 21 values from 2^16 to usize::MAX; a call slower than 100 ms twice in a row is reported as 'time grows with the argument' and ends the ladder, so the harness never sends the magnitudes at which such a call would not return); offsets >= len must merely not panic. Where texts x boundary sets x patterns of one length exceeds the level budget (see bound.documents.levels) every pattern is asked on the canonical boundary sets only and the other boundary sets get the reduced pattern set (all patterns of length <= 2, every substring of the text, every substring extended by one symbol on either side). The crate's ReferenceDocument is run through the same oracle and reported under refdoc:* signatures (its search ignores boundaries by construction, so it is asked the patterns once per text). \
+The API admits only boundaries that start at 0, strictly increase and stay < len, so empty records and the empty text cannot be built: that explicit refusal is counted under note:doc:construct:refuses:* and is not a violation. \
 Bit vectors (semantics taken from ReferenceBitVector, the crate's test tables and the default methods; the trait doc for select only says 'Select the x'th bit from this set. An index.'): access(i)=bit i for i<len else None; rank(i)=#ones at positions < i (exclusive) for i<=len else None; rank0(i)=i-rank(i); select(k)=smallest p with rank(p)=k, i.e. select(0)=0 and select(k)=index of the k-th one (1-based k, 0-based index) + 1, None for k>#ones; select0 likewise over zeros; access_rank(i)=(access,rank) for i<len, at i=len None or (false,rank(len)) (the crate's implementations differ there and the trait is silent), None beyond. A panic is a violation everywhere. \
 distinct = hash of the input (text+boundaries, or the bit vector); non-trivial = documents with >= 2 distinct symbols or >= 2 records, vectors containing both a 0 and a 1; outcomes = distinct observed answers.".to_string();
     report.assumptions = vec![
